@@ -636,6 +636,74 @@ theorem genesis_loaded_is_valid (bs : Bytes) (g : Genesis) (h : loadBytes bs = .
     | some r => rw [hv] at h; cases h
     | none => rw [hv] at h; cases h; exact hv
 
+/-- the document parser reads `a ++ suffix` as it reads `a` and leaves `suffix` for the final test -/
+theorem parse_append (a s : Bytes) (j : JFile) (h : parse a = some j) :
+    parse (a ++ s) = if s.all isJsonSpace then some j else none := by
+  unfold parse at h ⊢
+  cases hd : pDocument a with
+  | none => rw [hd] at h; cases h
+  | some jr =>
+    obtain ⟨j', r⟩ := jr
+    rw [hd] at h
+    rw [stable_pDocument a j' r s hd]
+    simp only at h ⊢
+    split at h
+    · next hr =>
+      simp only [Option.some.injEq] at h
+      simp only [List.all_append, hr, Bool.true_and, h]
+    · cases h
+
+/-- **A file with trailing content is refused.**  For EVERY file `a` that `LoadGenesis` loads (in
+particular every file `Save` wrote) and every suffix: if the suffix holds anything but JSON white
+space — a stray `}`, a second genesis document, text, a NUL — the file `a ++ suffix` is refused as
+unparsable (`json.Unmarshal`: "invalid character … after top-level value"); nothing of the first
+document is loaded … -/
+theorem genesis_trailing_content_refused (a s : Bytes) (g : Genesis) (h : loadBytes a = .ok g)
+    (hs : s.all isJsonSpace = false) : loadBytes (a ++ s) = .error .unparsable := by
+  unfold loadBytes at h ⊢
+  cases hp : parse a with
+  | none => rw [hp] at h; cases h
+  | some j => rw [parse_append a s j hp, hs]; rfl
+
+/-- … and a suffix of white space only changes nothing: the file loads as before. -/
+theorem genesis_trailing_space_loads (a s : Bytes) (g : Genesis) (h : loadBytes a = .ok g)
+    (hs : s.all isJsonSpace = true) : loadBytes (a ++ s) = .ok g := by
+  unfold loadBytes at h ⊢
+  cases hp : parse a with
+  | none => rw [hp] at h; cases h
+  | some j => rw [parse_append a s j hp, hs]; rw [hp] at h; exact h
+
+/-- the same for a file whose document `Validate` refuses: with trailing content it is refused as
+unparsable, with trailing white space for the reason `Validate` gives -/
+theorem genesis_trailing_content_refused_invalid (a s : Bytes) (r : Refusal) (h : loadBytes a = .error (.refused r)) :
+    loadBytes (a ++ s) = if s.all isJsonSpace then .error (.refused r) else .error .unparsable := by
+  unfold loadBytes at h ⊢
+  cases hp : parse a with
+  | none => rw [hp] at h; cases h
+  | some j =>
+    rw [parse_append a s j hp]
+    rw [hp] at h
+    cases hs : s.all isJsonSpace with
+    | true => simpa using h
+    | false => simp
+
+/-- on a path: whatever genesis `Save` wrote, appending non-white-space to the file makes `LoadGenesis` refuse it -/
+theorem genesis_trailing_content_refused_at (d : Disk) (p : Nat) (g g' : Genesis) (s : Bytes)
+    (h : loadAt (writeTrunc d p (renderGenesis g)) p = .ok g') (hs : s.all isJsonSpace = false) :
+    loadAt (writeTrunc d p (renderGenesis g ++ s)) p = .error .unparsable := by
+  simp only [loadAt, writeTrunc, Disk.read, List.lookup, beq_self_eq_true] at h ⊢
+  exact genesis_trailing_content_refused _ s g' h hs
+
+/-- … which is FALSE of a loader that decodes only the FIRST value of the stream
+(`json.NewDecoder(f).Decode`, seeded change C18-F): it loads the first document and ignores the
+second, contradicting one -/
+theorem genesis_first_value_decoder_accepts_trailing :
+    parse (renderGenesis longG ++ renderGenesis shortG) = none ∧
+    (parseFirst (renderGenesis longG ++ renderGenesis shortG)).map (·.chainId) = some longG.chainId ∧
+    parse (renderGenesis longG ++ str "}") = none ∧
+    (parseFirst (renderGenesis longG ++ str "}")).isSome = true ∧
+    (parse (renderGenesis longG ++ str " \n\t\r")).isSome = true := by decide +kernel
+
 /-- saving to one path leaves every other path as it was -/
 theorem genesis_save_other_path (d d' : Disk) (p q : Nat) (g : Genesis) (hq : q ≠ p)
     (h : saveAt d p g = .ok d') : loadAt d' q = loadAt d q := by
